@@ -30,6 +30,15 @@ def run(ctx):
     res.add_tlc(r)
     r = ctx.tlc("MC_FanOut", "MC_FanOut.cfg").require_clean()
     res.add_tlc(r)
+    # the media program may run for as long as it likes (no fairness for it): keys are handled anyway - unless the goroutine
+    # that waits for it holds the mutex meanwhile (design-level refutation; the driver plays the same scene on the real State)
+    r = ctx.tlc("UIConc", "MC_UIConc_hook.cfg").require_clean()
+    res.add_tlc(r)
+    hh = ctx.tlc("UIConc", "MC_UIConc_hookheld.cfg")
+    res.add_tlc(hh)
+    if not hh.violated:
+        raise vlib.Inconclusive("the variant of UIConc.tla that waits for the media program under the mutex was expected to be refuted (KeysFinish)")
+    res.extra["waiting_for_the_media_program_under_the_mutex"] = "refuted (KeysFinish)"
     evs, rc, txt = run_harness(ctx, "ui", "TestVerifConc", {"sessions": 25 if q else 250, "bursts": 8 if q else 12}, race=True, timeout=3000, allow_fail=True)
     races = race_reports(txt)
     if rc != 0 and not races:
